@@ -482,8 +482,24 @@ def main(argv=None) -> int:
         need = getattr(next((c for c in prop.contracts if c.qualname == r['contract']), None), 'required_covers', ())
         miss = [c for c in need if c not in r['covers']]
         if miss and not early_stop and not r.get('error') and not r['out_of_subset'] and all(o['status'] in ('discharged', 'known-finding') for o in r['obligations']):
-            lines.append(f"CHECKER-ERROR contract {r['contract']}: cover(s) never reached: {miss}")
-            checker_errors.append('cover')
+            lost = []
+            if baseline is not None and baseline['tree'] != cur_tree:
+                now = {ob_key(dict(o, contract=r['contract'])) for o in r['obligations']}
+                lost = [k for k in baseline['discharged'] if k.startswith(r['contract'] + '|') and k not in now]
+            if lost:
+                # an outcome of the function that the contract requires to be reachable (and that was reached on the baseline tree) is no longer
+                # reached: the obligations stated for that outcome were discharged on the baseline and cannot be generated now
+                path = write_replay(pid, f"{r['contract']}-outcome-no-longer-reached", {
+                    'property': pid, 'obligation': f"{r['contract']}/outcomes-reachable {miss}", 'contract': r['contract'],
+                    'reason': f'outcome(s) {miss} of the function, reached on the baseline tree, are not reached on this tree; the obligations stated for them are lost',
+                    'lost_obligations': lost, 'baseline_tree': baseline['tree'], 'current_tree': cur_tree})
+                violations.append((f"{r['contract']}/outcomes-reachable", path))
+                lines.append(f"VIOLATION property={pid} replay={path} no-failing-input-found")
+                lines.append(f"  obligation {r['contract']}/outcomes-reachable: outcome(s) {miss} reached on the baseline tree are not reached on this one; {len(lost)} obligations stated for them are lost")
+                exit_code = 1
+            else:
+                lines.append(f"CHECKER-ERROR contract {r['contract']}: cover(s) never reached: {miss}")
+                checker_errors.append('cover')
 
     if violations:
         exit_code = 1
